@@ -10,3 +10,9 @@ TRUSTED = ['A1', 'A2', 'A4', 'A5', 'A6', 'UF']
 
 def jobs(tier):
     return jobs_for('C12', MODULES, tier)
+
+
+def extra(tier, seed):
+    from fvverif.lean import lemma_status
+    ok, detail = lemma_status(['steady_is_fixed_point', 'unique_solution'], rebuild=(tier == 'thorough'))
+    return [('lean lemmas steady_is_fixed_point/unique_solution: a steady solution solves the backward-Euler system for every dt, alpha; uniqueness => it is returned', ok, 'lean:' + detail)]
